@@ -3,9 +3,9 @@ from .core import BASE_TRUST, LEAN, Problem
 
 META = {
     "category": "proof",
-    "text": "PARTIAL. Lean 4 proof, over facts regenerated from /repo on every run (extract/errfacts: go/ast + go/types over every package of the module), of: the loaders' totality and rectangularity (csv/tsv, ltsv, fixed-length: EVERY character string under EVERY option vector decodes to an error or to a table whose records all have the header's length - theorems csv_loader_total, ltsv_loader_total, fixed_loader_total, re-using C02); the error -> exit-code table (exit_code_total: every constructor of lib/query/error.go passes a return code of the manual's Return Code table or one of the three documented dynamic codes EXIT n / TRIGGER ERROR n / 128+signal; return_codes_documented, exit_default_documented, error_numbers_distinct, ctor_numbers_known, ctor_number_determines_code); the listed index-guard fragments (strToTime_index_in_range: every s[i] of value.StrToTime under the path conditions on len(s) read off the source is in range for every length; arg_index_in_range (Csvq/Props/C19Args.lean): EVERY index / slice expression on an argument slice - the slice parameters of all function values of the Functions and AggregateFunctions tables and of every helper that receives them unchanged [roundParams, execMath1Arg, execStringsPadding, prepareRegExpMatch, StringFormatter.Format, UserDefinedFunction.execute ...], and the unevaluated lists <p>.Args in evalFunction / evalAggregateFunction / evalListFunction / checkArgsFor... / Analyze / windowValues / every AnalyticFunction's Execute under what its own CheckArgsLen established / setNthValue / setLag, with the locals built from them - is in range for EVERY number of arguments and every value of the index variable, under the conditions on the length that dominate it in the source [enclosing if / switch / && / ||, the negation of every earlier early return, loop conditions; regenerated facts, checker ArgIndexSite.ok proved sound for all lengths], except five reviewed sites whose guard is a call [UserDefinedFunction.CheckArgsLen with len-1; `expr.Args == nil` after the parser's arguments rule] and zero known defects in the argument handling; the same theorem covers the CONSTANT-INDEX SWEEP [family const: every X[k] / X[len(X)-k] / X[a:b] with constant bounds on a variable or field path of slice or string type in lib/query, lib/action, lib/cli, lib/option under the length conditions of the same function: 154 sites, 64 proved in range - e.g. prepared.Statements[0] of Cursor.Open -, the others, guarded by an invariant that is not a length condition in the same function, are PINNED by class with their number of occurrences (pinnedConstIndexSites: reviewed by class, NOT proved) so that a new or weakened guard breaks the obligation; one known site: release[0] of the network-only check-update sub-command on an empty JSON array]; arg_unknown_sites_reviewed: the six uses of such a slice without a rule are reviewed; arg_facts_cover_function_table: every key of the three function tables, every special and list function has a count-check fact [a new built-in without facts breaks the obligation]; limit_in_bounds, offset_in_bounds, limit_percent_nan_refused from C07; cursor_index_inv from C16); a reviewed list of the unchecked type assertions x.(T) of lib/action and lib/query/built_in_command.go (unchecked_assertions_reviewed: a new one breaks the obligation and is reported as assert:<file>:<function>:<expr>); and two static absence facts: no method call on an error variable where a DIFFERENT error variable is the one known non-nil (nil_error_sites_except_known) and no recover() guarded by state another goroutine sets (recover_unconditional_except_known) - each open site is reported as nilerr:<file>:<function>:<expr> / recover:<file>:<function>:<guard>. EXPLORATION for the rest of the property (a universally quantified absence over the whole program): process-level fuzzing of the real binary - arbitrary and mutated bytes x 6 formats x delimiter / positions / encoding / no-header / allow-uneven-fields / without-null / json-query as file, table object and stdin, with the rectangularity of the loaded view checked directly on the real loader; every key of the Functions / AggregateFunctions / AnalyticFunctions tables with 0-5 boundary arguments (scalar and over a 200-row table with --cpu 4); the ARITY GRID (correspondence, not only exploration): every name of the three tables, NOW / JSON_OBJECT / CALL and LISTAGG / JSON_AGG with EVERY argument count 0..7 [the widest built-in takes 5] through SQL text in-process (parser + evaluator glue + function; scalar and over a table, DISTINCT, GROUP BY, OVER (), PARTITION BY / ORDER BY / ROWS frames, IGNORE NULLS, WITHIN GROUP; 5-6 small argument vectors per count), user-defined scalar / aggregate functions with and without defaults against their declared signature; one op `c19.arity <table> <NAME> <count>` per cell: the implementation's answer [argument-length error or not] is compared with the Lean driver's answer computed from the regenerated count checks, a [Fatal Error] is confirmed on the binary and reported; the `fields` sub-command with an argument grid of every shape a FROM clause text can take [existing / missing file, identifier spellings, file: URLs, STDIN, table functions and *_INLINE forms, DUAL, parenthesised tables, sub-queries, set operations, join lists, aliases, trailing clauses, several statements, comments, empty, keywords]; prepared statements from degenerate texts [no statement, several, not a query, placeholders, broken, texts that use prepared statements] x every consumer of a statement name [EXECUTE with / without USING, cursor FOR statement + OPEN with / without USING + FETCH / loop, DISPOSE PREPARE then use, re-PREPARE between declaration and OPEN, inside a function]; every kind of named object [file table, temporary view, cursor, cursor for a statement, scalar / aggregate function, prepared statement, variable, undeclared, DUAL, built-in name] x 48 syntactic roles that take a name; an IN-PROCESS function fuzzer (child processes of the harness call query.Functions[name] and the aggregate functions directly, under recover(), a memory limit and a watchdog: arity 0, ALL single values, ALL pairs over a typed compact pool of ~210 values [int64 / float boundaries, NULL, ternaries, datetimes, strings, every 1-character string over a 20-symbol alphabet, grammar-generated FORMAT / DATETIME_FORMAT strings, JSON texts, JSON queries incl. lone quotes and truncated forms, regular expressions, encoding / unit names] plus every 2-character string x 8 partners, ALL triples over a 16-value pool, a mode grid f(s,m) / f(s,x,m) / f(s,i,s2,m) / f(s,i,s2,m,m2) over 13 strings whose length, byte count and display width differ (empty, zero-width, combining, wide, surrogate pair, control, 5000 characters) x 6 small integers x 10 unit / encoding names, sampled 3-5-tuples: ~8 million calls per run; every recovered panic / stall is CONFIRMED on the real binary as csvq 'SELECT fn(<literals>)' before it is reported); JSON_OBJECT / JSON output key paths (aliases with dots, brackets, duplicates, empty) and malformed JSON queries through JSON_VALUE / JSON_ROW / JSON_TABLE / JSON_INLINE / JSON() / JSONL() / --json-query / SET @@JSON_QUERY; every clause and statement kind of the manual with holes filled from a boundary pool; file-system conditions (missing file, directory / dangling symlink / loop / FIFO in place of a file, unwritable targets of -o and CREATE TABLE, removed working directory, stale lock files); programs that reach the SAME file through different access paths in one transaction (plain name, quoted path, ./path, CSV/TSV/FIXED/JSON/JSONL/LTSV table functions, *_INLINE functions, sub-queries; read / FOR UPDATE / UPDATE / INSERT / DELETE / ALTER / after CREATE TABLE; every ordered pair per file, sampled triples); the grammars of structured option values (delimiter positions incl. s[], [ ], negative, decreasing, huge, nested, non-JSON; delimiter; encoding; line break; JSON escape; time zone; datetime format; numeric and boolean options) through every route that takes them (table function, command-line option, SET @@flag, ALTER TABLE, stdin, --out, csvq_env.json); option pairs over ragged / empty / blank-line data with column references beyond the shortest line; stale lock / read-lock / temp control files with wait timeouts 0, negative, tiny; joins of every kind x {field-less, empty, one, many rows} on each side at --cpu 1 and 4; option values crossed pairwise between the session level (option / SET @@) and the table-function arguments; user-defined functions whose body changes or reads tables, called from INSERT...SELECT / UPDATE / WHERE / JOIN / GROUP BY / ORDER BY; duplicate / unknown / too many names in USING, GROUP BY, ORDER BY, PARTITION BY, INSERT / REPLACE / CREATE / ALTER column lists; pathological LIKE patterns and regular expressions over 30-60 character subjects; tables with records but no fields in every clause position and output format; clause combinations in one query ({plain, analytic, aggregate, DISTINCT, GROUP BY, HAVING} x ORDER BY on {column, alias, ordinal, computed expression not in the list, aggregate, analytic, sub-query} x LIMIT / OFFSET over 2-5 rows); every output format x cells and header names that start with / end with / consist only of / contain each special character (CR, LF, CRLF, TAB, quotes, backslash, NUL, ESC, wide, combining, RTL, zero-width, BOM, invalid UTF-8 ...) with and without --out; window frames with int64-boundary offsets in every position (low / high bound x PRECEDING / FOLLOWING x every windowed function, 10 s watchdog); JSON Lines x json-query where the query yields [] / a scalar / a non-object for some lines (flag, JSONL(), SET @@JSON_QUERY, stdin); deterministic reproducers of the KNOWN findings F83 (self / mutual SOURCE nesting), F84 (unbounded user-defined-function recursion) and - thorough tier only - F97 (a prepared statement whose text executes itself), run under a small address-space limit and recognised by the nested frames of the goroutine dump; real files with record counts on both sides of the loader's internal thresholds (299, 300, 301, 320, 450, 680, 2000 and generated counts) x file encodings (UTF-8, UTF-8 BOM, Shift_JIS, UTF-16 LE/BE with and without BOM) read with the matching option, AUTO or a wrong one x cell repertoires that shrink or grow under transcoding (ASCII, half-width katakana, CJK, emoji, mixed) x CSV / TSV / LTSV / fixed-length / JSON Lines. Oracle: exit code documented, no 'Fatal Error' / Go panic text, 20 s wall-clock bound (a time-out is reported only if the job names no large quantity and still does not end when it is re-run alone with 4 times the bound), rectangular view, and no exhaustion of the 3 GB address space by a program that names no large quantity and reads less than 32 KB (memory:unbounded_growth). The evidence lists exactly which functions, clauses, statements, options, formats, encodings, file-system conditions, exit codes and error classes were driven, and which generated function names were NOT",
+    "text": "PARTIAL. Lean 4 proof, over facts regenerated from /repo on every run (extract/errfacts: go/ast + go/types over every package of the module), of: the loaders' totality and rectangularity (csv/tsv, ltsv, fixed-length: EVERY character string under EVERY option vector decodes to an error or to a table whose records all have the header's length - theorems csv_loader_total, ltsv_loader_total, fixed_loader_total, re-using C02); the error -> exit-code table (exit_code_total: every constructor of lib/query/error.go passes a return code of the manual's Return Code table or one of the three documented dynamic codes EXIT n / TRIGGER ERROR n / 128+signal; return_codes_documented, exit_default_documented, error_numbers_distinct, ctor_numbers_known, ctor_number_determines_code); the listed index-guard fragments (strToTime_index_in_range: every s[i] of value.StrToTime under the path conditions on len(s) read off the source is in range for every length; arg_index_in_range (Csvq/Props/C19Args.lean): EVERY index / slice expression on an argument slice - the slice parameters of all function values of the Functions and AggregateFunctions tables and of every helper that receives them unchanged [roundParams, execMath1Arg, execStringsPadding, prepareRegExpMatch, StringFormatter.Format, UserDefinedFunction.execute ...], and the unevaluated lists <p>.Args in evalFunction / evalAggregateFunction / evalListFunction / checkArgsFor... / Analyze / windowValues / every AnalyticFunction's Execute under what its own CheckArgsLen established / setNthValue / setLag, with the locals built from them - is in range for EVERY number of arguments and every value of the index variable, under the conditions on the length that dominate it in the source [enclosing if / switch / && / ||, the negation of every earlier early return, loop conditions; regenerated facts, checker ArgIndexSite.ok proved sound for all lengths], except five reviewed sites whose guard is a call [UserDefinedFunction.CheckArgsLen with len-1; `expr.Args == nil` after the parser's arguments rule] and zero known defects in the argument handling; the same theorem covers the CONSTANT-INDEX SWEEP [family const: every X[k] / X[len(X)-k] / X[a:b] with constant bounds on a variable or field path of slice or string type in lib/query, lib/action, lib/cli, lib/option under the length conditions of the same function: 154 sites, 64 proved in range - e.g. prepared.Statements[0] of Cursor.Open -, the others, guarded by an invariant that is not a length condition in the same function, are PINNED by class with their number of occurrences (pinnedConstIndexSites: reviewed by class, NOT proved) so that a new or weakened guard breaks the obligation; one known site: release[0] of the network-only check-update sub-command on an empty JSON array]; arg_unknown_sites_reviewed: the six uses of such a slice without a rule are reviewed; arg_facts_cover_function_table: every key of the three function tables, every special and list function has a count-check fact [a new built-in without facts breaks the obligation]; limit_in_bounds, offset_in_bounds, limit_percent_nan_refused from C07; cursor_index_inv from C16); EVERY unchecked type assertion x.(T) of the hand-written files of lib/query, lib/action, lib/cli, lib/parser, lib/value, lib/json, lib/option (more than 500 sites, the count per guard class and per file is in the evidence; Csvq/Props/C19Asserts.lean) with its guard classified syntactically and checked per class - assertion_sites_ok / assertion_site_safe: inside `case T:` of a type switch over the same expression; behind a successful comma-ok test; or a value whose possible dynamic types form a regenerated finite set [the return statements of the function it comes from, followed through calls - value.ToInteger: *Integer or *Null ...; the GRAMMAR CONTRACT: what the actions of parser.y (a fixpoint over its productions) and every composite literal / assignment of the module store in that field of a parser node, nil if left out; what is ever stored in the SyncMap wrappers and sync.Pool variables] minus what dominating tests exclude [!value.IsNull(x), x != nil], every remaining type being (or implementing) T; or a value fetched BY NAME from a function that picks the type of its result by that name [Transaction.GetFlag, GetRuntimeInformation: regenerated table name -> types] inside `case <these names>:` of a switch over the same name; the sites outside the classes are listed ONE BY ONE (53 reviewed by kind of guard; no known defect left: the two the facts turned up - a back-quoted `JSON_OBJECT`(c1) and DELETE FROM (t), both [Fatal Error] interface conversion - are repaired in /repo, F107 / F108), a new unchecked assertion or a guard that no longer dominates breaks the obligation and is reported as assert:<file>:<function>:<x>.(<T>)#<occurrence>; and two static absence facts: no method call on an error variable where a DIFFERENT error variable is the one known non-nil (nil_error_sites_except_known) and no recover() guarded by state another goroutine sets (recover_unconditional_except_known) - each open site is reported as nilerr:<file>:<function>:<expr> / recover:<file>:<function>:<guard>. EXPLORATION for the rest of the property (a universally quantified absence over the whole program): process-level fuzzing of the real binary - arbitrary and mutated bytes x 6 formats x delimiter / positions / encoding / no-header / allow-uneven-fields / without-null / json-query as file, table object and stdin, with the rectangularity of the loaded view checked directly on the real loader; every key of the Functions / AggregateFunctions / AnalyticFunctions tables with 0-5 boundary arguments (scalar and over a 200-row table with --cpu 4); the ARITY GRID (correspondence, not only exploration): every name of the three tables, NOW / JSON_OBJECT / CALL and LISTAGG / JSON_AGG with EVERY argument count 0..7 [the widest built-in takes 5] through SQL text in-process (parser + evaluator glue + function; scalar and over a table, DISTINCT, GROUP BY, OVER (), PARTITION BY / ORDER BY / ROWS frames, IGNORE NULLS, WITHIN GROUP; 5-6 small argument vectors per count), user-defined scalar / aggregate functions with and without defaults against their declared signature; one op `c19.arity <table> <NAME> <count>` per cell: the implementation's answer [argument-length error or not] is compared with the Lean driver's answer computed from the regenerated count checks, a [Fatal Error] is confirmed on the binary and reported; the `fields` sub-command with an argument grid of every shape a FROM clause text can take [existing / missing file, identifier spellings, file: URLs, STDIN, table functions and *_INLINE forms, DUAL, parenthesised tables, sub-queries, set operations, join lists, aliases, trailing clauses, several statements, comments, empty, keywords]; prepared statements from degenerate texts [no statement, several, not a query, placeholders, broken, texts that use prepared statements] x every consumer of a statement name [EXECUTE with / without USING, cursor FOR statement + OPEN with / without USING + FETCH / loop, DISPOSE PREPARE then use, re-PREPARE between declaration and OPEN, inside a function]; every kind of named object [file table, temporary view, cursor, cursor for a statement, scalar / aggregate function, prepared statement, variable, undeclared, DUAL, built-in name] x 48 syntactic roles that take a name; every built-in / special / aggregate / analytic name and 18 keyword-like names called BACK-QUOTED (the generic production identifier '(' arguments ')') with 0-3 arguments, plain / OVER () / without FROM; 24 shapes of table object [identifier, quoted file, parenthesised table / join, join, table list, alias, sub-query, LATERAL, DUAL, STDIN, table function, inline table, file: URL, FILE:: / DATA::, temporary view, missing, keyword] as the target of 19 statements [DELETE (4 forms), UPDATE (2), INSERT (2), REPLACE, ALTER (4), SHOW FIELDS, FOR UPDATE, CREATE TABLE AS, DISPOSE VIEW, cursor, sub-query]; an IN-PROCESS function fuzzer (child processes of the harness call query.Functions[name] and the aggregate functions directly, under recover(), a memory limit and a watchdog: arity 0, ALL single values, ALL pairs over a typed compact pool of ~210 values [int64 / float boundaries, NULL, ternaries, datetimes, strings, every 1-character string over a 20-symbol alphabet, grammar-generated FORMAT / DATETIME_FORMAT strings, JSON texts, JSON queries incl. lone quotes and truncated forms, regular expressions, encoding / unit names] plus every 2-character string x 8 partners, ALL triples over a 16-value pool, a mode grid f(s,m) / f(s,x,m) / f(s,i,s2,m) / f(s,i,s2,m,m2) over 13 strings whose length, byte count and display width differ (empty, zero-width, combining, wide, surrogate pair, control, 5000 characters) x 6 small integers x 10 unit / encoding names, sampled 3-5-tuples: ~8 million calls per run; every recovered panic / stall is CONFIRMED on the real binary as csvq 'SELECT fn(<literals>)' before it is reported); JSON_OBJECT / JSON output key paths (aliases with dots, brackets, duplicates, empty) and malformed JSON queries through JSON_VALUE / JSON_ROW / JSON_TABLE / JSON_INLINE / JSON() / JSONL() / --json-query / SET @@JSON_QUERY; every clause and statement kind of the manual with holes filled from a boundary pool; file-system conditions (missing file, directory / dangling symlink / loop / FIFO in place of a file, unwritable targets of -o and CREATE TABLE, removed working directory, stale lock files); programs that reach the SAME file through different access paths in one transaction (plain name, quoted path, ./path, CSV/TSV/FIXED/JSON/JSONL/LTSV table functions, *_INLINE functions, sub-queries; read / FOR UPDATE / UPDATE / INSERT / DELETE / ALTER / after CREATE TABLE; every ordered pair per file, sampled triples); the grammars of structured option values (delimiter positions incl. s[], [ ], negative, decreasing, huge, nested, non-JSON; delimiter; encoding; line break; JSON escape; time zone; datetime format; numeric and boolean options) through every route that takes them (table function, command-line option, SET @@flag, ALTER TABLE, stdin, --out, csvq_env.json); option pairs over ragged / empty / blank-line data with column references beyond the shortest line; stale lock / read-lock / temp control files with wait timeouts 0, negative, tiny; joins of every kind x {field-less, empty, one, many rows} on each side at --cpu 1 and 4; option values crossed pairwise between the session level (option / SET @@) and the table-function arguments; user-defined functions whose body changes or reads tables, called from INSERT...SELECT / UPDATE / WHERE / JOIN / GROUP BY / ORDER BY; duplicate / unknown / too many names in USING, GROUP BY, ORDER BY, PARTITION BY, INSERT / REPLACE / CREATE / ALTER column lists; pathological LIKE patterns and regular expressions over 30-60 character subjects; tables with records but no fields in every clause position and output format; clause combinations in one query ({plain, analytic, aggregate, DISTINCT, GROUP BY, HAVING} x ORDER BY on {column, alias, ordinal, computed expression not in the list, aggregate, analytic, sub-query} x LIMIT / OFFSET over 2-5 rows); every output format x cells and header names that start with / end with / consist only of / contain each special character (CR, LF, CRLF, TAB, quotes, backslash, NUL, ESC, wide, combining, RTL, zero-width, BOM, invalid UTF-8 ...) with and without --out; window frames with int64-boundary offsets in every position (low / high bound x PRECEDING / FOLLOWING x every windowed function, 10 s watchdog); JSON Lines x json-query where the query yields [] / a scalar / a non-object for some lines (flag, JSONL(), SET @@JSON_QUERY, stdin); deterministic reproducers of the KNOWN findings F83 (self / mutual SOURCE nesting), F84 (unbounded user-defined-function recursion) and - thorough tier only - F97 (a prepared statement whose text executes itself), run under a small address-space limit and recognised by the nested frames of the goroutine dump; real files with record counts on both sides of the loader's internal thresholds (299, 300, 301, 320, 450, 680, 2000 and generated counts) x file encodings (UTF-8, UTF-8 BOM, Shift_JIS, UTF-16 LE/BE with and without BOM) read with the matching option, AUTO or a wrong one x cell repertoires that shrink or grow under transcoding (ASCII, half-width katakana, CJK, emoji, mixed) x CSV / TSV / LTSV / fixed-length / JSON Lines. Oracle: exit code documented, no 'Fatal Error' / Go panic text, 20 s wall-clock bound (a time-out is reported only if the job names no large quantity and still does not end when it is re-run alone with 4 times the bound), rectangular view, and no exhaustion of the 3 GB address space by a program that names no large quantity and reads less than 32 KB (memory:unbounded_growth). The evidence lists exactly which functions, clauses, statements, options, formats, encodings, file-system conditions, exit codes and error classes were driven, and which generated function names were NOT",
     "design_ref": "DESIGN.md section 5, C19",
-    "note": "proof for the loaders' totality/rectangularity (CSV/TSV/LTSV/fixed; JSON/JSONL loaders are explored only), the error-code table and the listed index-guard fragments; exploration for everything else => partial. The argument-slice facts are about the INDEX EXPRESSIONS on the argument slices (out-of-range panics), not about what the functions do with the values; conditions are read per function and handed to callees with the call context; they are assumed to survive calls (argument slices are not resized by callees), an index variable counts as non-negative only if it is a range key or is only ever assigned non-negative constants / ++ (int wrap-around not considered), slices derived by calls (floatList(list), cmdargs built by append) are not argument slices and are not covered. Trusted: Lean kernel; extract/errfacts (syntactic, fails closed; nil-error and recover facts are intraprocedural patterns, not a nil-ness analysis; argfacts.go: the translation of if / switch / early-return structure into length conditions, tied to the running code for the count checks by the arity grid; the generic CheckArgsLen of analytic functions is compared with its reviewed text and Analyze's check-before-dispatch order is verified syntactically); the loader models of C02 (tied to the code by C02's own correspondence); the harness oracle (text patterns, exit status). Not generated on purpose: external commands ($ ..., CALL), check-update (network), URLs, non-terminating programs (unbounded recursion / WHILE TRUE); children run under ulimit -v 3000000 and running out of memory under that limit is counted, not reported",
+    "note": "proof for the loaders' totality/rectangularity (CSV/TSV/LTSV/fixed; JSON/JSONL loaders are explored only), the error-code table and the listed index-guard fragments; exploration for everything else => partial. The argument-slice facts are about the INDEX EXPRESSIONS on the argument slices (out-of-range panics), not about what the functions do with the values; conditions are read per function and handed to callees with the call context; they are assumed to survive calls (argument slices are not resized by callees), an index variable counts as non-negative only if it is a range key or is only ever assigned non-negative constants / ++ (int wrap-around not considered), slices derived by calls (floatList(list), cmdargs built by append) are not argument slices and are not covered. Trusted: Lean kernel; extract/errfacts (syntactic, fails closed; nil-error and recover facts are intraprocedural patterns, not a nil-ness analysis; argfacts.go: the translation of if / switch / early-return structure into length conditions, tied to the running code for the count checks by the arity grid; the generic CheckArgsLen of analytic functions is compared with its reviewed text and Analyze's check-before-dispatch order is verified syntactically; assertsites.go / grammar.go: guard classes are syntactic dominance in one function; the tables of possible dynamic types are flow-insensitive unions over return statements / constructions, an AST node is assumed to be built by a composite literal, a declared zero value or a copy - not by reflection or decoding -, values stored through interfaces the analysis cannot resolve count as unknown, calls are assumed not to change the variable or field a test was made on; lib/parser's generated parser.go is not scanned, its source parser.y is read for the grammar contract); the loader models of C02 (tied to the code by C02's own correspondence); the harness oracle (text patterns, exit status). Not generated on purpose: external commands ($ ..., CALL), check-update (network), URLs, non-terminating programs (unbounded recursion / WHILE TRUE); children run under ulimit -v 3000000 and running out of memory under that limit is counted, not reported",
     "technique": "Lean 4 machine-checked proof over regenerated facts (kernel evaluation) + re-used loader / LIMIT / cursor theorems + process-level fuzzing of the real binary with a classifying, shrinking oracle",
 }
 
@@ -56,6 +56,38 @@ def parse_gen():
         return ["%s:%s:%s x%s" % (unq(m.group(1)), unq(m.group(2)), unq(m.group(3)), m.group(4))
                 for m in re.finditer(r"⟨%s, %s, %s, (\d+)⟩" % (STR, STR, STR), section(ptxt, name))]
     out["arg_sites_known"], out["arg_sites_reviewed"], out["arg_sites_pinned"] = refs("knownArgIndexSites"), refs("reviewedArgIndexSites"), len(refs("pinnedConstIndexSites"))
+    # unchecked type assertions: classes, and the sites that are neither accepted by the checker nor listed
+    LST = r"\[((?:%s(?:, )?)*)\]" % STR
+    sources = {unq(m.group(1)): [unq(x) for x in re.findall(STR, m.group(2))] for m in re.finditer(r"^  \(%s, %s\)" % (STR, LST), section(txt, "dynSources"), re.M)}
+    impl = {(unq(m.group(1)), unq(m.group(2))) for m in re.finditer(r"^  \(%s, %s\)" % (STR, STR), section(txt, "assertImplements"), re.M)}
+    keyed = {}
+    for m in re.finditer(r"^  \(%s, \[(.*)\]\)" % STR, section(txt, "keyedSources"), re.M):
+        keyed[unq(m.group(1))] = {unq(r.group(1)): [unq(x) for x in re.findall(STR, r.group(2))] for r in re.finditer(r"\(%s, %s\)" % (STR, LST), m.group(2))}
+    atxt = (LEAN / "Csvq" / "Props" / "C19Asserts.lean").read_text() if (LEAN / "Csvq" / "Props" / "C19Asserts.lean").exists() else ""
+    listed = {(unq(m.group(1)), unq(m.group(2)), unq(m.group(3)), unq(m.group(4)), int(m.group(5))) for m in re.finditer(r"⟨%s, %s, %s, %s, (\d+)⟩" % (STR, STR, STR, STR), atxt)}
+    out["assert_known"] = ["%s:%s:%s.(%s)#%s" % (unq(m.group(1)), unq(m.group(2)), unq(m.group(3)), unq(m.group(4)), m.group(5))
+                           for m in re.finditer(r"⟨%s, %s, %s, %s, (\d+)⟩" % (STR, STR, STR, STR), section(atxt, "knownAssertSites"))]
+    classes, per_file, open_sites = {}, {}, []
+    for m in re.finditer(r"^  ⟨%s, %s, (\d+), (\d+), %s, %s, \.(inCase|afterOk|unknown|oneOf|keyed)(?: %s)?(?: %s)?⟩" % (STR, STR, STR, STR, STR, LST), section(txt, "assertSites"), re.M):
+        f, fn, line, ordn, ex, typ, g = unq(m.group(1)), unq(m.group(2)), int(m.group(3)), int(m.group(4)), unq(m.group(5)), unq(m.group(6)), m.group(7)
+        per_file[f] = per_file.get(f, 0) + 1
+        okk, types, cls = g in ("inCase", "afterOk"), None, g
+        if g == "oneOf":
+            src = unq(m.group(8))
+            excl = [unq(x) for x in re.findall(STR, m.group(9) or "")]
+            types = sources.get(src)
+            cls = "oneOf " + src.split(":", 1)[0]
+            okk = types is not None and all(d in excl or (d not in ("nil", "?") and (d == typ or (d, typ) in impl)) for d in types)
+        if g == "keyed":
+            src = unq(m.group(8))
+            keys = [unq(x) for x in re.findall(STR, m.group(9) or "")]
+            tbl = keyed.get(src, {})
+            types = {k: tbl.get(k) for k in keys}
+            okk = bool(keys) and all(tbl.get(k) is not None and all(d not in ("nil", "?") and (d == typ or (d, typ) in impl) for d in tbl[k]) for k in keys)
+        classes[cls] = classes.get(cls, 0) + 1
+        if not okk and (f, fn, ex, typ, ordn) not in listed:
+            open_sites.append({"file": f, "fn": fn, "line": line, "ord": ordn, "expr": ex, "typ": typ, "guard": g if g not in ("oneOf", "keyed") else "keyed %s %s" % (unq(m.group(8)), [unq(x) for x in re.findall(STR, m.group(9) or "")]) if g == "keyed" else "oneOf %s minus %s" % (unq(m.group(8)), [unq(x) for x in re.findall(STR, m.group(9) or "")]), "types": types})
+    out["assert_classes"], out["assert_per_file"], out["assert_open"], out["assert_listed"], out["assert_sources"] = classes, per_file, open_sites, len(listed), len(sources)
     checks = {}
     for m in re.finditer(r"^  ⟨%s, %s, %s, " % (STR, STR, STR), section(txt, "argCountChecks"), re.M):
         checks.setdefault(unq(m.group(1)), []).append(unq(m.group(2)))
@@ -87,27 +119,23 @@ def run(run):
             sg = "recover:%s:%s:%s" % (f["file"], f["fn"], f["guard"])
             static.append(Problem("direct", sg, {"what": "recover() skipped when `%s` is false: a panic in a second worker after the first recorded an error is not recovered and ends the process with a raw Go panic (static fact)" % f["guard"],
                                                  "site": "%s:%d" % (f["file"], f["line"]), "function": f["fn"]}, concrete=False, signature=sg))
-    # type assertions without comma-ok in the command layer that are not (yet) in the reviewed list of Props/C19.lean
-    if ok:
-        gtxt = GEN.read_text()
-        ptxt = (LEAN / "Csvq" / "Props" / "C19.lean").read_text()
-        reviewed = {m.group(1): int(m.group(2)) for m in re.finditer(r'\("(assert:(?:[^"\\]|\\.)*)", (\d+)\)', ptxt)}
-        for m in re.finditer(r'⟨%s, %s, %s, (true|false), (\d+)⟩' % (STR, STR, STR), section(gtxt, "uncheckedAssertions")):
-            f, fn, ex, safe, cnt = unq(m.group(1)), unq(m.group(2)), unq(m.group(3)), m.group(4) == "true", int(m.group(5))
-            sg = "assert:%s:%s:%s" % (f, fn, ex)
-            if not safe and cnt > reviewed.get(sg, 0):
-                static.append(Problem("direct", sg, {"what": "type assertion without the comma-ok form in the command layer that is not in the reviewed list (it panics - Fatal Error - when the value holds another type or nil); review it and add it to reviewedAssertions in lean/Csvq/Props/C19.lean, or use the comma-ok form",
-                                                     "file": f, "function": fn, "expression": ex, "occurrences": cnt, "reviewed_occurrences": reviewed.get(sg, 0)}, concrete=False, signature=sg))
+    # unchecked type assertions that are neither safe by the class of their guard nor listed in Props/C19Asserts.lean
+    # (the Lean theorem assertion_sites_ok is the authority; this only names the sites)
+    for a in gen.get("assert_open", []):
+        sg = "assert:%s:%s:%s.(%s)#%d" % (a["file"], a["fn"], a["expr"], a["typ"], a["ord"])
+        static.append(Problem("direct", sg, {"what": "unchecked type assertion that is not safe by the class of its guard (type-switch clause / comma-ok / finite set of possible dynamic types) and is not listed in lean/Csvq/Props/C19Asserts.lean: it panics when the value holds another type or nil",
+                                             "site": "%s:%d" % (a["file"], a["line"]), "function": a["fn"], "assertion": "%s.(%s)" % (a["expr"], a["typ"]), "guard": a["guard"],
+                                             "possible_dynamic_types": a.get("types")}, concrete=False, signature=sg))
     run.problems += static
 
     if ok:
-        run.obligations_for(["Csvq.Props.C19", "Csvq.Props.C19Args"])
+        run.obligations_for(["Csvq.Props.C19", "Csvq.Props.C19Args", "Csvq.Props.C19Asserts"])
 
     before = len(run.problems)
     stats = None
     csvq = run.build_csvq()
     if csvq:
-        stats = run.stream("c19", 9000 if q else 500000, env={"VERIF_CSVQ": str(csvq)}, timeout=600 if q else 3300)
+        stats = run.stream("c19", 6000 if q else 500000, env={"VERIF_CSVQ": str(csvq)}, timeout=600 if q else 3300)
     law_names = {p.name for p in run.problems[before:] if p.kind == "law"}
     for p in static:
         if p.signature.startswith("nilerr:") and "cacheViewFromFile" in p.signature:
@@ -160,6 +188,9 @@ def run(run):
                                        "known_out_of_range_sites": gen.get("arg_sites_known", []), "reviewed_sites_guarded_by_a_call": gen.get("arg_sites_reviewed", []),
                                        "pinned_constant_index_sites_not_proved": gen.get("arg_sites_pinned", 0),
                                        "count_checks_per_table": {k: len(v) for k, v in gen.get("arg_count_checks", {}).items()}},
+        "unchecked_type_assertions": {"sites": sum(gen.get("assert_classes", {}).values()), "per_guard_class": gen.get("assert_classes", {}), "per_file": gen.get("assert_per_file", {}),
+                                      "sources_with_a_table_of_possible_types": gen.get("assert_sources", 0), "listed_one_by_one_in_C19Asserts": gen.get("assert_listed", 0),
+                                      "known_reachable_with_another_type": gen.get("assert_known", []), "neither_safe_nor_listed": ["%s:%d %s.(%s)" % (a["file"], a["line"], a["expr"], a["typ"]) for a in gen.get("assert_open", [])]},
         "arity_grid": {"functions": dist.get("arity_grid_functions", 0), "functions_x_argument_counts_driven": dist.get("arity_grid_cells", 0), "calls": dist.get("arity_grid_calls", 0),
                        "argument_counts": "0..7 for every table name (the widest built-in takes 5), 0..max+2 for the user-defined functions",
                        "outcomes": {k[14:]: v for k, v in dist.items() if k.startswith("arity_outcome:")},
@@ -194,6 +225,7 @@ def run(run):
             "fields_subcommand_argument_grid": {"classes": sorted(k[len("subcommand-text:fields (grid) "):] for k in dist if k.startswith("subcommand-text:fields (grid) ")), "arguments": len(driven("fields-arg:"))},
             "prepared_statement_grid": {"texts": driven("prepared-text:"), "consumers": driven("prepared-consumer:")},
             "names_in_the_wrong_role_grid": {"roles": driven("role:"), "kinds_of_name": driven("name-kind:")},
+            "quoted_function_names": len(driven("quoted-name:")), "table_object_grid": {"objects": driven("table-object:"), "targets": driven("target-of:")},
             "ragged_data": driven("ragged:"), "stale_control_files": driven("lock:"), "wait_timeouts": driven("wait-timeout:"),
             "out_of_memory_commands_counted_not_reported": sorted(k[13:] for k in dist if k.startswith("observed_oom:")),
             "timed_out_commands_naming_a_large_quantity_counted_not_reported": sorted(k[17:] for k in dist if k.startswith("observed_timeout:")),
@@ -218,11 +250,11 @@ def run(run):
         s["distribution"] = {k: v for k, v in d.items() if k.startswith(("group:", "law_seen:", "exit:", "observed:", "inproc_c", "inproc_o", "inproc_a"))}
     return run.finish(
         level="proof",
-        rule="proof part: obligations = theorems of Csvq/Props/C19.lean and Csvq/Props/C19Args.lean over Csvq/Gen/ErrFacts.lean regenerated on this run. Correspondence part: one case = one cell (function name, argument count) of the arity grid, the implementation's answer (argument-length error or not, over 5-30 SQL statements per cell) against the Lean driver model-c19 evaluating the regenerated count checks. Exploration part: one case = one run of the real csvq binary in a fresh directory (corpus of earlier findings; file-system conditions; clause / statement templates with holes filled from a 190-value boundary pool and random command-line options; every function of the three tables with 0-5 pool / column arguments, scalar and over 200 rows with --cpu 4; in-process calls of every scalar and aggregate function (each call counted as one evaluation; exhaustive singles / pairs / triples over typed pools, see inprocess_function_fuzzer), candidates confirmed on the binary; JSON key-path and JSON-query routes; arbitrary / mutated / transcoded bytes x format x import options as file, table object and stdin); non-trivial = distinct (group, set of tags [function, arity, call site, clause, statement, options, format, byte source, encoding, fs condition], exit code) for process runs, distinct (function, arity) and (function, outcome class value/null/error/panic) for in-process calls",
+        rule="proof part: obligations = theorems of Csvq/Props/C19.lean, Csvq/Props/C19Args.lean and Csvq/Props/C19Asserts.lean over Csvq/Gen/ErrFacts.lean regenerated on this run. Correspondence part: one case = one cell (function name, argument count) of the arity grid, the implementation's answer (argument-length error or not, over 5-30 SQL statements per cell) against the Lean driver model-c19 evaluating the regenerated count checks. Exploration part: one case = one run of the real csvq binary in a fresh directory (corpus of earlier findings; file-system conditions; clause / statement templates with holes filled from a 190-value boundary pool and random command-line options; every function of the three tables with 0-5 pool / column arguments, scalar and over 200 rows with --cpu 4; in-process calls of every scalar and aggregate function (each call counted as one evaluation; exhaustive singles / pairs / triples over typed pools, see inprocess_function_fuzzer), candidates confirmed on the binary; JSON key-path and JSON-query routes; arbitrary / mutated / transcoded bytes x format x import options as file, table object and stdin); non-trivial = distinct (group, set of tags [function, arity, call site, clause, statement, options, format, byte source, encoding, fs condition], exit code) for process runs, distinct (function, arity) and (function, outcome class value/null/error/panic) for in-process calls",
         trusted_base=BASE_TRUST + [
-            "extract/errfacts (go/ast + go/types, fails closed): constant tables, constructors, the manual's Return Code table, cli.Exit, nil-error and recover patterns, function tables, StrToTime index sites, argument-slice index sites and count checks (argfacts.go)",
+            "extract/errfacts (go/ast + go/types, fails closed): constant tables, constructors, the manual's Return Code table, cli.Exit, nil-error and recover patterns, function tables, StrToTime index sites, argument-slice index sites and count checks (argfacts.go), unchecked type assertions with the tables of possible dynamic types (assertsites.go; grammar.go reads parser.y's actions and every construction of a parser node in the module)",
             "the loader models of C02 and the LIMIT / cursor models of C07 / C16 (each tied to the code by its own property's correspondence)",
             "harness/cmd/c19: generators, the classifying oracle (exit status + text patterns), /bin/sh + ulimit for the children"],
-        checker_cmd="cd /verif && go run -C extract/errfacts . > lean/Csvq/Gen/ErrFacts.lean && cd lean && lake build Csvq.Props.C19 Csvq.Props.C19Args model-c19 && lake env lean <#print axioms for every theorem>; cd /verif/harness && go build -tags verif ./cmd/c19 && VERIF_CSVQ=<csvq built from /repo with -tags verif> ./c19 -seed S -n N -out DIR",
+        checker_cmd="cd /verif && go run -C extract/errfacts . > lean/Csvq/Gen/ErrFacts.lean && cd lean && lake build Csvq.Props.C19 Csvq.Props.C19Args Csvq.Props.C19Asserts model-c19 && lake env lean <#print axioms for every theorem>; cd /verif/harness && go build -tags verif ./cmd/c19 && VERIF_CSVQ=<csvq built from /repo with -tags verif> ./c19 -seed S -n N -out DIR",
         extra_cov=extra,
     )
